@@ -79,6 +79,11 @@ def gen_procs(rng, tier):
     procs.append(dict(base, out="file", arg=b"@D@/%{snoopy_literal:" + b"./" * 150 + b"}out.log", dsmax=255, calls=small(3)))
     # a data-source value that itself looks like a tag is inserted into the path verbatim (one expansion, not two)
     procs.append(dict(base, out="file", arg=b"@D@/out-%{env:PT}.log", env=[b"PATH=/bin", b"PT=%{snoopy_literal:T}"], calls=small(3)))
+    # a filter that tokenises its own argument sits in front of a dropping filter: the chain walk must survive it (no record)
+    procs.append(dict(base, out="file", arg=b"@D@/out.log", chain=b"exclude_spawns_of:nosuchprog,othernosuch;exclude_uid:0", calls=small(3)))
+    # an ident template whose expansion is far longer than the template itself (devlog frame buffer must follow the ident BUFFER size)
+    procs.append(dict(base, out="devlog", ident=b"%{env:IDL}", env=[b"PATH=/bin", b"IDL=" + b"i" * 200], calls=small(3)))
+    procs.append(dict(base, out="devlog", ident=b"%{env:IDL}%{env:IDL}", env=[b"PATH=/bin", b"IDL=" + b"j" * 120], fmt=b"%{cmdline} " + b"m" * 300, calls=small(2)))
     # real uid differs from the effective uid (set-uid program started by an ordinary user): the output acts with the effective uid
     procs.append(dict(base, out="file", arg=b"@D@/out.log", calls=small(4), pre={0: ["ruid\t65534"]}))
     return procs
